@@ -223,6 +223,20 @@ def check_c17(tier):
                 errs[which] = rng.sample(pool, rng.randint(1, len(pool)))
             hist.append({"case": f"h{g}-{len(hist)}", "expr": e, "expr_str": render(e), "errs": errs}); ncase += 1
         groups.append({"db": db, "irr": irr_of(db), "names": NAMES, "twice": g % 2 == 0, "history": hist})
+    # long streaks of failing evaluations (each touching filter-, as- and route-sets) before clean ones: state that an
+    # evaluator only resets on success, or that builds up per failure, shows only here
+    F1 = {"op": "fset", "name": "F1"}; S = lambda n: {"op": "asset", "name": n, "rng": [0, 0]}; R1 = {"op": "rset", "name": "R1", "rng": [0, 0]}
+    for g in range(30 if tier == "thorough" else 6):
+        db = make_db(b, rng); hist = []
+        streak = 20 + 6 * (g % 3)
+        for k in range(streak):
+            e = [{"op": "and", "l": F1, "r": S("S1")}, {"op": "or", "l": S("S2"), "r": F1}, {"op": "and", "l": {"op": "or", "l": F1, "r": R1}, "r": S("S1")}][k % 3]
+            errs = {"asSets": ["S1", "S2"], "ases": [], "rtSets": [], "fltSets": [], "kind": ["D", "E", "F"][(g + k) % 3]}
+            hist.append({"case": f"L{g}-{len(hist)}", "expr": e, "expr_str": render(e), "errs": errs}); ncase += 1
+        for e in [F1, S("S1"), {"op": "or", "l": F1, "r": R1}] + exprs(b, rng, 4, 2):
+            hist.append({"case": f"L{g}-{len(hist)}", "expr": e, "expr_str": render(e),
+                         "errs": {"asSets": [], "ases": [], "rtSets": [], "fltSets": [], "kind": "D"}}); ncase += 1
+        groups.append({"db": db, "irr": irr_of(db), "names": NAMES, "twice": g % 2 == 0, "history": hist})
     gpath = os.path.join(wd, "histories.ndjson")
     with open(gpath, "w") as f:
         for g in groups:
@@ -236,7 +250,11 @@ def check_c17(tier):
         payload = {"property": prop, "rule": v["rule"], "disc": v["disc"], "occurrences": v.get("n", 1), "expr": v.get("info"),
                    "position_in_history": k + 1, "history_group": g}
         verdict.report(v["rule"], v["disc"], payload, detail=f"expr={v.get('info')} n={v.get('n', 1)}")
-    cov = {"states": stats["lines"] + 1, "transitions": stats["lines"], "traces_validated_against_impl": nhist,
+    # the agent evaluates all its policies on one evaluator: a policy whose evaluation fails (or panics) must not
+    # change what the policies after it evaluate to (junos-agent/src/policies/eval.rs)
+    import check_agent
+    agent = check_agent.side_run(prop, tier, verdict)
+    cov = {"agent_policy_sequences": agent, "states": stats["lines"] + 1, "transitions": stats["lines"], "traces_validated_against_impl": len(groups), "long_failure_streak_histories": len(groups) - nhist,
            "evaluations": stats["lines"], "distinct_nontrivial": stats.get("later", 0),
            "samples": [{"history": [h["expr_str"] + " errs=" + json.dumps({k: v for k, v in h["errs"].items() if v and k != "kind"}) for h in groups[0]["history"]]}],
            "histories": nhist, "evaluations_per_history": hlen, "evaluations_with_failed_outcome": stats.get("failed"),
